@@ -473,8 +473,29 @@ def layered(draw, n: int) -> int:
     return mask_of(n, edges)
 
 
+@st.composite
+def two_lcs(draw, n: int) -> int:
+    """A pair (a, b) with two lowest common hypernyms c and d of equal depth that lie
+    at different distances: a -> c, a -> x -> d, b -> c, b -> d (optionally a common
+    top above c and d); further nodes hang below existing ones.  Needs n >= 5."""
+    if n < 5:
+        return draw(layered(n))
+    order = draw(_perm(n))
+    a, b, c, d, x = order[:5]
+    edges = [(a, c), (a, x), (x, d), (b, c), (b, d)]
+    used = 5
+    if n > 5 and draw(st.booleans()):
+        t = order[5]
+        edges += [(c, t), (d, t)]
+        used = 6
+    for k in range(used, n):
+        for y in draw(st.lists(st.integers(0, k - 1), min_size=1, max_size=2, unique=True)):
+            edges.append((order[k], order[y]))
+    return mask_of(n, edges)
+
+
 FAMILIES = {'dag': dag_biased, 'cyclic': cycle_biased, 'forest': forest,
-            'diamonds': diamond_stack, 'layered': layered}
+            'diamonds': diamond_stack, 'layered': layered, 'two-lcs': two_lcs}
 
 
 @st.composite
